@@ -7,6 +7,7 @@ import (
 	"fmt"
 	"os"
 	"path/filepath"
+	"runtime/pprof"
 	"strings"
 	"time"
 
@@ -38,7 +39,7 @@ func run(args []string) {
 	maxPaths := fs.Int("maxpaths", 200000, "path limit")
 	maxSteps := fs.Int64("maxsteps", 5_000_000, "step budget per path")
 	maxDepth := fs.Int("maxdepth", 400, "call depth budget")
-	solver := fs.String("solver", "z3", "z3 | z3-new | cvc5")
+	solver := fs.String("solver", "z3-new", "z3 | z3-new | cvc5")
 	solverMs := fs.Int("solverms", 20000, "per-query solver timeout (ms)")
 	timeLimit := fs.Duration("time", 10*time.Minute, "wall-clock limit per harness")
 	trace := fs.Bool("trace", false, "trace instructions")
@@ -48,7 +49,13 @@ func run(args []string) {
 	shard := fs.Int("shard", 0, "shard index")
 	shards := fs.Int("shards", 1, "number of shards")
 	shardDepth := fs.Int("sharddepth", 6, "decisions hashed for sharding")
+	cpuprof := fs.String("cpuprofile", "", "write a CPU profile")
 	fs.Parse(args)
+	if *cpuprof != "" {
+		f, _ := os.Create(*cpuprof)
+		pprof.StartCPUProfile(f)
+		defer pprof.StopCPUProfile()
+	}
 
 	modDir := filepath.Join(*work, fmt.Sprintf("mod_%d", os.Getpid()))
 	os.MkdirAll(modDir, 0o755)
